@@ -367,11 +367,7 @@ func (m *Machine) implements(a IfaceAlt, iface types.Type) bool {
 // ---- maps: objects whose cells are triples (present T, key Value, value Value)
 
 func (m *Machine) NewMap(mt *types.Map, site string) *Object {
-	m.nextObj++
-	o := &Object{ID: m.nextObj, Kind: KMap, Site: site, T: mt}
-	m.heap.Init(o, []Value{})
-	m.NObjects++
-	return o
+	return m.canonObject(Object{Kind: KMap, Site: site, T: mt}, []Value{})
 }
 
 func (m *Machine) keyEq(a, b Value) T { return m.valueEq(a, b) }
@@ -478,9 +474,7 @@ func (m *Machine) rangeInit(it *Item, x *ssa.Range) Value {
 	}
 	m.Assumptions["range over map iterates in insertion order (Go leaves the order unspecified; the ranged-over code is assumed order-insensitive)"] = true
 	// iterator object: a plain object with one cell holding the position
-	m.nextObj++
-	o := &Object{ID: m.nextObj, Kind: KSynth, Site: "range", Name: "rangeiter"}
-	m.heap.Init(o, []Value{m.IntC(0)})
+	o := m.canonObject(Object{Kind: KSynth, Site: "range", Name: "rangeiter"}, []Value{m.IntC(0)})
 	m.rangeStates[o] = rs
 	return single(o, 0, m.C)
 }
